@@ -118,6 +118,9 @@ pub struct WalWriter {
     entry_count: usize,
     bytes_written: u64,
     error_handler: Option<Arc<WalErrorHandler>>,
+    /// Set when the rollback of a failed append failed itself: the file may end in a partial
+    /// frame, so nothing may be appended behind it (the next recovery starts a new segment).
+    needs_repair: bool,
 }
 
 impl WalWriter {
@@ -157,12 +160,14 @@ impl WalWriter {
             entry_count: 0,
             bytes_written: 4, // Magic header
             error_handler,
+            needs_repair: false,
         })
     }
 
     /// Append entry to WAL
     #[instrument(level = "trace", skip(self, entry), fields(doc_id = entry.doc_id, op = ?entry.op, embedding_dim = entry.embedding.len()))]
     pub fn append(&mut self, entry: &WalEntry) -> Result<()> {
+        self.ensure_no_repair_needed()?;
         match &self.error_handler {
             Some(error_handler) => {
                 // Clone error handler arc to avoid borrow conflict
@@ -186,6 +191,16 @@ impl WalWriter {
         }
     }
 
+    /// Refuse writes after a failed rollback: an entry appended behind a partial frame would be
+    /// acknowledged but unreadable.
+    fn ensure_no_repair_needed(&self) -> Result<()> {
+        anyhow::ensure!(
+            !self.needs_repair,
+            "WAL segment has unrolled-back partial data; restart required"
+        );
+        Ok(())
+    }
+
     /// Internal append logic (called by append or via error handler)
     fn append_internal(&mut self, entry: &WalEntry) -> Result<()> {
         self.write_entry(entry)?;
@@ -198,17 +213,22 @@ impl WalWriter {
         stable_offset: u64,
         stable_entry_count: usize,
     ) -> Result<()> {
+        // Also guards the retry of a write whose previous attempt could not be rolled back.
+        self.ensure_no_repair_needed()?;
         match self.append_internal(entry) {
             Ok(()) => Ok(()),
             Err(write_err) => {
                 let write_err_msg = write_err.to_string();
-                self.rollback_to_stable_state(stable_offset, stable_entry_count)
-                    .with_context(|| {
-                        format!(
-                            "WAL write failed ({}); rollback to offset {} failed",
-                            write_err_msg, stable_offset
-                        )
-                    })?;
+                let rollback = self.rollback_to_stable_state(stable_offset, stable_entry_count);
+                if rollback.is_err() {
+                    self.needs_repair = true;
+                }
+                rollback.with_context(|| {
+                    format!(
+                        "WAL write failed ({}); rollback to offset {} failed",
+                        write_err_msg, stable_offset
+                    )
+                })?;
                 Err(write_err)
             }
         }
@@ -295,6 +315,7 @@ impl WalWriter {
     /// Append batch of entries to WAL
     #[instrument(level = "trace", skip(self, entries), fields(count = entries.len()))]
     pub fn append_batch(&mut self, entries: &[WalEntry]) -> Result<()> {
+        self.ensure_no_repair_needed()?;
         match &self.error_handler {
             Some(error_handler) => {
                 let handler = Arc::clone(error_handler);
@@ -319,17 +340,22 @@ impl WalWriter {
         stable_offset: u64,
         stable_entry_count: usize,
     ) -> Result<()> {
+        // Also guards the retry of a write whose previous attempt could not be rolled back.
+        self.ensure_no_repair_needed()?;
         match self.append_batch_internal(entries) {
             Ok(()) => Ok(()),
             Err(write_err) => {
                 let write_err_msg = write_err.to_string();
-                self.rollback_to_stable_state(stable_offset, stable_entry_count)
-                    .with_context(|| {
-                        format!(
-                            "WAL batch write failed ({}); rollback to offset {} failed",
-                            write_err_msg, stable_offset
-                        )
-                    })?;
+                let rollback = self.rollback_to_stable_state(stable_offset, stable_entry_count);
+                if rollback.is_err() {
+                    self.needs_repair = true;
+                }
+                rollback.with_context(|| {
+                    format!(
+                        "WAL batch write failed ({}); rollback to offset {} failed",
+                        write_err_msg, stable_offset
+                    )
+                })?;
                 Err(write_err)
             }
         }
